@@ -79,48 +79,73 @@ Example C10_domain_nonempty :
   /\ option_map (columns gen_cfg) (run' (create' ex_names) ex_ops) = Some [s "Mx"; s "n N"].
 Proof. vm_compute. repeat split; reflexivity. Qed.
 
-(** * refutation witnesses: the faithful model differs from Spark.names (each is replayed on the implementation) *)
+(** * refutation witnesses: the faithful model differs from Spark.names (each is replayed on the implementation).
+    A witness that rests on a regenerated fact is stated under that fact (a boolean computed from Gen.C10Facts), so that
+    repairing the defect in /repo -- which flips the fact -- does not turn the witness into a failing obligation. *)
+Definition is_rnone (k : rkind) : bool := match k with RNone => true | _ => false end.
+Definition is_public (k : rsel) : bool := match k with SelPublicCopy => true | _ => false end.
+Definition groupagg_records_nothing : bool := is_rnone (rec_of gen_cfg MGroupAgg).
+Definition toDF_records_nothing : bool := is_rnone (rec_of gen_cfg MToDF).
+Definition join_records_nothing : bool := is_rnone (rec_of gen_cfg MJoin).
+Definition drop_reselects_publicly : bool := is_public (resel_of gen_cfg MDrop).
+Definition fillna_reselects_publicly : bool := is_public (resel_of gen_cfg MFillna).
+Definition dropna_reselects_publicly : bool := is_public (resel_of gen_cfg MDropna).
+Definition select_records_on_receiver : bool := match rec_of gen_cfg MSelect with RRecv => true | _ => false end.
+Definition str_recorded_raw : bool := str_disp_raw gen_cfg.
+
 Ltac refute := vm_compute; repeat split; try reflexivity; try discriminate.
+Ltac refute_if w :=
+  let H := fresh "H" in intro H;
+  first [ (vm_compute in H; discriminate H) | (clear H; w) ].
 
 Definition abc := [s "AB"; s "c d"; s "Xy"].
 
-Theorem C10_refuted_groupby_agg : exists ops d ns',
+Theorem C10_refuted_groupby_agg : groupagg_records_nothing = true -> exists ops d ns',
   run' (create' abc) ops = Some d /\ spec' abc ops = Some ns' /\ columns gen_cfg d <> ns'
   /\ columns gen_cfg d = [s "AB"; s "n"] /\ ns' = [s "AB"; s "N"].
-Proof. exists [OGroupAgg [SStr (s "AB")] [s "N"]]. eexists. eexists. refute. Qed.
+Proof. refute_if ltac:(exists [OGroupAgg [SStr (s "AB")] [s "N"]]; eexists; eexists; refute). Qed.
 
-Theorem C10_refuted_select_backticked_string : exists ops d ns',
+Theorem C10_refuted_select_backticked_string : str_recorded_raw = true -> exists ops d ns',
   run' (create' abc) ops = Some d /\ spec' abc ops = Some ns' /\ columns gen_cfg d <> ns'
   /\ columns gen_cfg d = [s "`c d`"] /\ ns' = [s "c d"].
-Proof. exists [OSelect [SStr (s "`c d`")]]. eexists. eexists. refute. Qed.
+Proof. refute_if ltac:(exists [OSelect [SStr (s "`c d`")]]; eexists; eexists; refute). Qed.
 
-Theorem C10_refuted_fillna : exists ops d ns',
+Theorem C10_refuted_fillna : fillna_reselects_publicly = true -> exists ops d ns',
   run' (create' abc) ops = Some d /\ spec' abc ops = Some ns' /\ columns gen_cfg d <> ns'
   /\ columns gen_cfg d = [s "ab"; s "`c d`"; s "xy"] /\ ns' = abc.
-Proof. exists [OFillna None]. eexists. eexists. refute. Qed.
+Proof. refute_if ltac:(exists [OFillna None]; eexists; eexists; refute). Qed.
 
-Theorem C10_refuted_drop : exists ops d ns',
+Theorem C10_refuted_drop : drop_reselects_publicly = true -> exists ops d ns',
   run' (create' abc) ops = Some d /\ spec' abc ops = Some ns' /\ columns gen_cfg d <> ns'
   /\ columns gen_cfg d = [s "ab"; s "c d"] /\ ns' = [s "AB"; s "c d"].
-Proof. exists [ODrop [s "xy"]]. eexists. eexists. refute. Qed.
+Proof. refute_if ltac:(exists [ODrop [s "xy"]]; eexists; eexists; refute). Qed.
 
-Theorem C10_refuted_dropna_dropDuplicates : exists d1 d2,
+Theorem C10_refuted_dropna_dropDuplicates :
+  dropna_reselects_publicly && drop_reselects_publicly = true -> exists d1 d2,
   run' (create' abc) [ODropna] = Some d1 /\ run' (create' abc) [ODropDuplicates [s "Ab"]] = Some d2
   /\ columns gen_cfg d1 = [s "ab"; s "c d"; s "xy"] /\ columns gen_cfg d2 = [s "ab"; s "c d"; s "xy"]
   /\ spec' abc [ODropna] = Some abc /\ spec' abc [ODropDuplicates [s "Ab"]] = Some abc.
-Proof. eexists. eexists. refute. Qed.
+Proof. refute_if ltac:(eexists; eexists; refute). Qed.
 
-Theorem C10_refuted_toDF_views : exists ops d ns',
+Theorem C10_refuted_toDF_views : toDF_records_nothing = true -> exists ops d ns',
   run' (create' abc) ops = Some d /\ spec' abc ops = Some ns'
   /\ columns gen_cfg d = ns' /\ fields anorm gen_cfg d <> columns gen_cfg d
   /\ fields anorm gen_cfg d = [s "aa"; s "bb"; s "cc"].
-Proof. exists [OToDF [s "Aa"; s "Bb"; s "Cc"]]. eexists. eexists. refute. Qed.
+Proof. refute_if ltac:(exists [OToDF [s "Aa"; s "Bb"; s "Cc"]]; eexists; eexists; refute). Qed.
 
-Theorem C10_refuted_join_right_names : exists ops d ns',
+Theorem C10_refuted_join_right_names : join_records_nothing = true -> exists ops d ns',
   run' (create' [s "AB"; s "Xy"]) ops = Some d /\ spec' [s "AB"; s "Xy"] ops = Some ns' /\ columns gen_cfg d <> ns'
   /\ columns gen_cfg d = [s "AB"; s "Xy"; s "other"] /\ ns' = [s "AB"; s "Xy"; s "Other"].
-Proof. exists [OJoin [s "ab"; s "Other"] [s "Ab"]]. eexists. eexists. refute. Qed.
+Proof. refute_if ltac:(exists [OJoin [s "ab"; s "Other"] [s "Ab"]]; eexists; eexists; refute). Qed.
 
+(** a call renames the frame it is called on: d1 = df.where(...); d1.select('ab', 'XY') changes d1.columns *)
+Theorem C10_refuted_receiver : select_records_on_receiver = true -> exists d1 rv d2,
+  run' (create' abc) [OWhere (s "ab")] = Some d1
+  /\ step anorm wu gen_cfg (OSelect [SStr (s "ab"); SStr (s "XY")]) d1 = Some (rv, d2)
+  /\ columns gen_cfg d1 = abc /\ columns gen_cfg rv = [s "ab"; s "c d"; s "XY"].
+Proof. refute_if ltac:(eexists; eexists; eexists; refute). Qed.
+
+(** witnesses that rest on the hand-written part of the model (sqlglot's quoting / parsing as defined in C10.Names, C10.Model) *)
 Theorem C10_refuted_join_quoted_key_raises : exists ops ns',
   run' (create' [s "AB"; s "c d"]) ops = None /\ spec' [s "AB"; s "c d"] ops = Some ns'.
 Proof. exists [OJoin [s "C D"; s "Other"] [s "c d"]]. eexists. refute. Qed.
@@ -139,18 +164,15 @@ Theorem C10_refuted_same_column_twice : exists ops d ns',
   /\ columns gen_cfg d = [s "AB"; s "AB"] /\ ns' = [s "ab"; s "AB"].
 Proof. exists [OSelect [SCol (s "ab"); SCol (s "AB")]]. eexists. eexists. refute. Qed.
 
-(** a call renames the frame it is called on: d1 = df.where(...); d1.select('ab', 'XY') changes d1.columns *)
-Theorem C10_refuted_receiver : exists d1 rv d2,
-  run' (create' abc) [OWhere (s "ab")] = Some d1
-  /\ step anorm wu gen_cfg (OSelect [SStr (s "ab"); SStr (s "XY")]) d1 = Some (rv, d2)
-  /\ columns gen_cfg d1 = abc /\ columns gen_cfg rv = [s "ab"; s "c d"; s "XY"].
-Proof. eexists. eexists. eexists. refute. Qed.
-
 Theorem C10_not_full : ~ C10_full.
 Proof.
-  intros [H _]. specialize (H wu abc [ODrop [s "xy"]] [s "AB"; s "c d"] eq_refl).
-  destruct H as [d [Hr [Hc _]]]. vm_compute in Hr. injection Hr as <-. vm_compute in Hc. discriminate.
+  intros [H _]. specialize (H wu [s "C D"; s "1a"] [] [s "C D"; s "1a"] eq_refl).
+  destruct H as [d [Hr [_ [_ [Hs _]]]]]. vm_compute in Hr. injection Hr as <-. vm_compute in Hs. discriminate.
 Qed.
+
+(** the facts under which the conditional witnesses speak, as they are on this run *)
+Eval vm_compute in (groupagg_records_nothing, toDF_records_nothing, join_records_nothing, drop_reselects_publicly,
+                    fillna_reselects_publicly, dropna_reselects_publicly, select_records_on_receiver, str_recorded_raw).
 Print Assumptions C10_refuted_groupby_agg.
 Print Assumptions C10_refuted_receiver.
 Print Assumptions C10_not_full.
